@@ -77,9 +77,10 @@ func zzSymbolicPods(c *fakeapi.Client, nNodes, maxPods int, rich bool) {
 // Unknown-phase pod nor the same pod twice.
 func ZZ_C01_reconcile() {
 	nNodes, maxPods := 2, 2
+	// (thorough tier: three pods over two or three nodes are millions of paths and do not finish in 30 minutes;
+	// it keeps two pods and additionally lets each pod be Ready or not — zzSymbolicPods — on three nodes)
 	if nondet.Thorough() {
-		// (three pods over three nodes do not finish in 25 minutes: three pods over two nodes)
-		nNodes, maxPods = 2, 3
+		nNodes, maxPods = 3, 2
 	}
 	c, ds, rsNew, _ := zzStore(nNodes)
 	ds.Status.ActiveReplicaSet = rsNew.Name
